@@ -98,7 +98,7 @@ class Case:
 class MachineRun:
     """spec MC + real harness over one family"""
 
-    def __init__(self, fam, tier, seed, grammars=None, indented=False, cfg="MCPeg.cfg"):
+    def __init__(self, fam, tier, seed, grammars=None, indented=True, cfg="MCPeg.cfg"):
         self.fam, self.tier, self.seed = fam, tier, seed
         t0 = time.time()
         self.cdir, self.grammars = vlib.build_corpus(fam, tier, seed, grammars)
